@@ -310,8 +310,13 @@ structure Obs where
   maxEventLength : Int
   deriving DecidableEq, Repr
 
+/-- The mode string the state API reports for the settings `ms` (letter, argument): "+", the letters, then the
+    arguments.  A letter is reported as the API's `string` type spells a byte-valued letter (`Go.strOfByte`: the byte
+    itself below 0x80, the two-byte UTF-8 encoding of U+0080‥U+00FF from 0x80 on) — `HasMode` / `Get` / `String` of the
+    implementation all use that spelling, so "+x is reported" means: reported under that spelling. -/
 def modesString (ms : List (Byte × Bytes)) : Bytes :=
-  (if ms.length > 0 then [0x2B] else []) ++ ms.map (·.1) ++ ms.flatMap (fun m => if m.2.length > 0 then SP :: m.2 else [])
+  (if ms.length > 0 then [0x2B] else []) ++ ms.flatMap (fun m => Go.strOfByte m.1) ++
+    ms.flatMap (fun m => if m.2.length > 0 then SP :: m.2 else [])
 
 /-- Observation of the implementation model's state: exactly what the public getters return. -/
 def observe (st : St) : Obs :=
